@@ -1819,6 +1819,31 @@ BUILTINS = {
 }
 
 
+def outer_frame(I, module, outer_qualname, extra=None):
+    """Frame of an enclosing function for verifying one of its nested functions: the enclosing
+    body's nested defs and its assignments of literals / dict-of-lambda tables are evaluated from
+    the real source; every other free variable must be supplied in `extra` (ghost objects)."""
+    node, mod, cls = locate(module, outer_qualname)
+    ofv = FuncVal(node, None, mod, outer_qualname, cls=cls)
+    fr = Frame(dict(extra or {}), mod, func=ofv)
+    for s in _walk_defs(node.body):
+        if isinstance(s, ast.FunctionDef):
+            I.st_FunctionDef(s, fr)
+        elif isinstance(s, ast.Assign) and len(s.targets) == 1 and isinstance(s.targets[0], ast.Name) \
+                and s.targets[0].id not in fr.env:
+            v = s.value
+            if isinstance(v, ast.Constant):
+                fr.env[s.targets[0].id] = v.value
+            elif isinstance(v, ast.Dict) and all(isinstance(k, ast.Constant) for k in v.keys) and \
+                    all(isinstance(x, (ast.Lambda, ast.Constant)) for x in v.values):
+                d = {}
+                for k, x in zip(v.keys, v.values):
+                    d[k.value] = FuncVal(x, fr, mod, '%s.%s[%r]' % (outer_qualname, s.targets[0].id, k.value)) \
+                        if isinstance(x, ast.Lambda) else x.value
+                fr.env[s.targets[0].id] = d
+    return fr
+
+
 # ----------------------------------------------------------------------------- driver
 def explore(run_path, max_paths=400, solver_timeout=3000):
     """run_path(state) executes one path (raising nothing for normal completion).
